@@ -861,7 +861,7 @@ func fmtIDs(ids []seq.ID) string {
 func sealedChannels(o vh.Opts, r *vh.RNG, rep *vh.Report) (*vh.Channel, *vh.Channel) {
 	fl := vh.NewChannel("findlids", "sealedFetchIndex.findLIDs on real sealed fractions (ID table dumped through GetMID/GetRID) vs SV.Fetch.findLIDsFixed; queried IDs: every stored ID, its two neighbours, both borders, in ascending, descending and random order; non-trivial = at least one present and one absent ID")
 	le := vh.NewChannel("lessorequal", "sealedIDsIndex.LessOrEqual (with its MinBlockIDs short cuts) vs SV.Fetch.lessOrEqualBlk on the dumped table; non-trivial = lid inside the table")
-	nStores := o.Pick(3, 12)
+	nStores := o.Pick(3, 40)
 	for s := 0; s < nStores; s++ {
 		var sc scenario
 		docsPer := []int{1, 3, 12, 40}[r.Intn(4)]
@@ -1247,7 +1247,7 @@ func groupIDsChannel(o vh.Opts, r *vh.RNG) *vh.Channel {
 func fetchDocsChannel(o vh.Opts, r *vh.RNG) *vh.Channel {
 	ch := vh.NewChannel("fetchdocs", "fracmanager.Fetcher.FetchDocs on real sealed/active fractions vs SV.Fetch.fetchDocs on the dumped ID tables / position maps (fraction range answers as oracle arguments); documents are identified by (fraction, block, offset); requests mix present and absent IDs (all border classes), hints, orders; non-trivial = at least one found and one not-found entry")
 	fetcher := fracmanager.NewFetcher(2)
-	for s := 0; s < o.Pick(6, 40); s++ {
+	for s := 0; s < o.Pick(6, 150); s++ {
 		sc := scenario{Fracs: genFracs(r, 1+r.Intn(4), []int{2, 6, 20}[r.Intn(3)], func() int { return 48 + r.Intn(200) }, r.Bool())}
 		st, err := newStore(&sc)
 		if err != nil {
@@ -1421,7 +1421,12 @@ func main() {
 		r := rng.Fork()
 		shapes := []int{0, 0, 0, 1, 1, 2, 3}
 		if o.Thorough() {
-			shapes = []int{0, 0, 0, 0, 0, 0, 0, 0, 0, 0, 1, 1, 1, 1, 2, 2, 3, 3, 4}
+			shapes = nil
+			for sh, n := range []int{60, 20, 8, 6, 2} {
+				for i := 0; i < n; i++ {
+					shapes = append(shapes, sh)
+				}
+			}
 		}
 		for i, sh := range shapes {
 			sc := genScenario(r.Fork(), fmt.Sprintf("s%d-shape%d", i, sh), sh, o.Thorough())
